@@ -156,5 +156,45 @@ theorem strCut_partition (s : String) (n : Nat) (a b : String)
     · simp at hb
   · simp at ha
 
+/-! ### ASCII strings: every byte cut is a string -/
+
+/-- every character is one byte (ASCII) -/
+def IsAscii (s : String) : Prop := ∀ c ∈ s.toList, c.utf8Size = 1
+
+theorem utf8Encode_ascii (l : List Char) (h : ∀ c ∈ l, c.utf8Size = 1) :
+    l.utf8Encode.data.toList = l.map (fun c => c.val.toUInt8) := by
+  induction l with
+  | nil => simp [List.utf8Encode_nil]
+  | cons c l ih =>
+    rw [List.utf8Encode_cons, ByteArray.toList_data_append, ih (fun d hd => h d (List.mem_cons_of_mem _ hd)),
+      List.utf8Encode_singleton, String.utf8EncodeChar_eq_singleton (h c (List.mem_cons_self ..)),
+      List.toList_data_toByteArray]
+    rfl
+
+theorem strCut_ascii_take (s : String) (h : IsAscii s) (n : Nat) :
+    ∃ a, strCut ((strBytes s).take n) = .ok (.str a) := by
+  have hb : ByteArray.mk ((strBytes s).take n).toArray = (s.toList.take n).utf8Encode := by
+    apply ByteArray.ext
+    rw [← Array.toList_inj]
+    rw [utf8Encode_ascii _ (fun c hc => h c (List.mem_of_mem_take hc))]
+    rw [strBytes_eq, ← String.utf8Encode_toList, utf8Encode_ascii _ h]
+    simp [List.map_take]
+  have hv : (ByteArray.mk ((strBytes s).take n).toArray).IsValidUTF8 := by
+    rw [hb]; exact ByteArray.isValidUTF8_utf8Encode
+  exact ⟨_, by unfold strCut; rw [dif_pos hv]⟩
+
+theorem strCut_ascii_drop (s : String) (h : IsAscii s) (n : Nat) :
+    ∃ a, strCut ((strBytes s).drop n) = .ok (.str a) := by
+  have hb : ByteArray.mk ((strBytes s).drop n).toArray = (s.toList.drop n).utf8Encode := by
+    apply ByteArray.ext
+    rw [← Array.toList_inj]
+    rw [utf8Encode_ascii _ (fun c hc => h c (List.mem_of_mem_drop hc))]
+    rw [strBytes_eq, ← String.utf8Encode_toList, utf8Encode_ascii _ h]
+    simp [List.map_drop]
+  have hv : (ByteArray.mk ((strBytes s).drop n).toArray).IsValidUTF8 := by
+    rw [hb]; exact ByteArray.isValidUTF8_utf8Encode
+  exact ⟨_, by unfold strCut; rw [dif_pos hv]⟩
+
+
 end Spec
 end ExprModel
